@@ -90,6 +90,9 @@ def reemit_case(args):
         except Exception as e:
             out.append({"expression": src, "problem": "re-emission raised %s: %s" % (type(e).__name__, str(e)[:80])})
             continue
+        if not isinstance(got_src, str):
+            out.append({"expression": src, "problem": "re-emission produced %r" % (got_src,)})
+            continue
         try:
             got = ast.parse(got_src.strip(), mode="eval")
         except SyntaxError as e:
